@@ -60,6 +60,17 @@ g = Allocation("[" + ", ".join(rows) + "]\n# k: v\n").griddify()
 bad = crossed(g)
 print("scenario 2:", g.num_rectangles, "cells after griddify;", len(bad), "crossings of refinable cells:", bad[:3])
 fail |= bool(bad)
+
+# Scenario 3 (audit 4): a chain x=1, y=0.5, x=0.25, y=0.005, x=0.004 next to a 100x100 cell needs FOUR rounds of the two sweeps
+Rectangle.undefine_epsilon()
+S, T = 100.0, 8.0
+xl, yl = [0.0, 0.004, 0.25, 1.0, S], [0.0, 0.005, 0.5, 50.0, S]
+rows = [cell(0, 0, S, S, "M1")] + [cell(u, S, v, S + T, "M2") for u, v in zip(xl, xl[1:])] + \
+    [cell(S, u, S + T, v, "M3") for u, v in zip(yl, yl[1:])]
+g = Allocation("[" + ", ".join(rows) + "]\n# k: v\n").griddify()
+bad = crossed(g)
+print("scenario 3:", g.num_rectangles, "cells after griddify;", len(bad), "crossings of refinable cells:", bad[:3])
+fail |= bool(bad)
 Rectangle.undefine_epsilon()
 
 if fail:
